@@ -42,6 +42,7 @@ type Case struct {
 	Conf     int    `json:"conf"`
 	MaxCount uint   `json:"max_count"`
 	MaxSize  uint   `json:"max_size"`
+	MaxElem  uint   `json:"max_elem,omitempty"` // conf 3 only
 	Keys     int    `json:"keys"`
 	Procs    int    `json:"procs"`
 	Reps     int    `json:"reps"`
@@ -52,7 +53,14 @@ type Case struct {
 	Twins int `json:"twins,omitempty"`
 }
 
-func keyName(i int) string { return "key" + strconv.Itoa(i) }
+// keyName(i) for i >= 0 is a short key; negative indexes name two keys longer than
+// any element-size limit of the generated configurations.
+func keyName(i int) string {
+	if i < 0 {
+		return "long-key-" + strings.Repeat("x", 120) + strconv.Itoa(-i)
+	}
+	return "key" + strconv.Itoa(i)
+}
 
 func makeValue(key string, g, seq int) []byte {
 	body := key + "|" + strconv.Itoa(g) + "|" + strconv.Itoa(seq)
@@ -190,6 +198,7 @@ func execute(c Case) (res execResult, err error) {
 	case 3:
 		conf.MaxCount = c.MaxCount
 		conf.MaxSize = c.MaxSize
+		conf.MaxElementSize = c.MaxElem
 	}
 	ch := cache.New(conf)
 	shared := make([][3][]byte, max(1, c.Keys))
@@ -255,7 +264,7 @@ func execute(c Case) (res execResult, err error) {
 						errs[g] = fmt.Sprintf("Stats snapshot %+v: Count exceeds MaxCount %d", s, conf.MaxCount)
 					case conf.MaxSize != 0 && uint(s.Size) > conf.MaxSize:
 						errs[g] = fmt.Sprintf("Stats snapshot %+v: Size exceeds MaxSize %d", s, conf.MaxSize)
-					case s.Count > c.Keys:
+					case s.Count > c.Keys+2:
 						errs[g] = fmt.Sprintf("Stats snapshot %+v: Count exceeds the %d keys in use", s, c.Keys)
 					case s.Count == 0 && s.Size != 0 && false:
 					}
@@ -290,7 +299,7 @@ func execute(c Case) (res execResult, err error) {
 		return res, fmt.Errorf("after quiescence Count = %d exceeds MaxCount = %d", s.Count, conf.MaxCount)
 	}
 	size, count := 0, 0
-	for k := 0; k < c.Keys; k++ {
+	for k := -2; k < c.Keys; k++ { // (-2, -1: the two over-long keys, storable only without size limits)
 		key := keyName(k)
 		if v := ch.Get([]byte(key)); v != nil {
 			if vk, ok := valueKey(v); !ok || vk != key {
@@ -426,8 +435,11 @@ var programProp = vp.Register(vp.Prop[Case]{
 		if rapid.IntRange(0, 3).Draw(t, "twins") == 0 {
 			c.Twins = rapid.IntRange(1, 2).Draw(t, "ntwins")
 		}
+		longKeys := false
 		if c.Conf == 3 {
 			c.MaxSize = uint(rapid.SampledFrom([]int{0, 30, 60}).Draw(t, "maxsize"))
+			c.MaxElem = uint(rapid.SampledFrom([]int{0, 0, 25, 40}).Draw(t, "maxelem"))
+			longKeys = true
 		}
 		g := rapid.IntRange(2, 8).Draw(t, "goroutines")
 		kinds := []string{"set", "set", "set", "get", "get", "get", "del", "stats", "stats", "clear"}
@@ -443,7 +455,10 @@ var programProp = vp.Register(vp.Prop[Case]{
 					Key:   rapid.IntRange(0, c.Keys-1).Draw(t, "key"),
 					Yield: rapid.IntRange(0, 5).Draw(t, "yield") == 0,
 				}
-				if prog[j].Kind == "set" && rapid.IntRange(0, 3).Draw(t, "shared") == 0 {
+				if longKeys && rapid.IntRange(0, 5).Draw(t, "longkey") == 0 {
+					prog[j].Key = -1 - rapid.IntRange(0, 1).Draw(t, "which") // a key longer than any limit
+				}
+				if prog[j].Kind == "set" && prog[j].Key >= 0 && rapid.IntRange(0, 3).Draw(t, "shared") == 0 {
 					prog[j].Shared = rapid.IntRange(1, 3).Draw(t, "slot")
 				}
 			}
